@@ -11,6 +11,7 @@ import (
 
 	"github.com/bartossh/Computantis/src/accountant"
 	"github.com/bartossh/Computantis/src/spice"
+	"github.com/bartossh/Computantis/src/transaction"
 	"pgregory.net/rapid"
 
 	"verif/harness/ref"
@@ -200,22 +201,36 @@ func (m *lm) c07Truncate(round int) map[ref.Hash]struct{} {
 			m.addViol("C07", "checkpoint-funds-invented", "checkpoint holds funds for unknown address %s", addr)
 		}
 	}
-	// (b) every vertex confirmed before is still retrievable by hash with identical content
-	for h := range m.conf[A] {
+	// (b) every vertex confirmed before is still retrievable by hash with identical content. All reads first, all
+	// comparisons afterwards: what a read returned must stay what it was while later reads are served (a caller holds
+	// several results at once - a history listing, two concurrent handlers).
+	type readBack struct {
+		v    accountant.Vertex
+		verr error
+		tx   transaction.Transaction
+		terr error
+	}
+	back := map[ref.Hash]*readBack{}
+	order := ref.SortedHashes(m.conf[A])
+	for _, h := range order {
 		v := m.w.Arch.V[h]
-		got, err := m.w.Nodes[A].Book.ReadVertex(bg, h)
-		if err != nil {
-			m.addViol("C07", "vertex-not-retrievable", "after truncation #%d ReadVertex(%s) fails: %v", round, short(h), err)
-			continue
+		rb := &readBack{}
+		rb.v, rb.verr = m.w.Nodes[A].Book.ReadVertex(bg, h)
+		rb.tx, rb.terr = m.w.Nodes[A].Book.ReadTransactionByHash(bg, v.Transaction.Hash)
+		back[h] = rb
+	}
+	for _, h := range order {
+		v := m.w.Arch.V[h]
+		rb := back[h]
+		if rb.verr != nil {
+			m.addViol("C07", "vertex-not-retrievable", "after truncation #%d ReadVertex(%s) fails: %v", round, short(h), rb.verr)
+		} else if d := vrxDiff(v, &rb.v); d != "" {
+			m.addViol("C07", "vertex-content-changed", "after truncation #%d vertex %s read back differs in %s (compared after all %d confirmed vertices had been read)", round, short(h), d, len(order))
 		}
-		if d := vrxDiff(v, &got); d != "" {
-			m.addViol("C07", "vertex-content-changed", "after truncation #%d vertex %s read back differs in %s", round, short(h), d)
-		}
-		tx, err := m.w.Nodes[A].Book.ReadTransactionByHash(bg, v.Transaction.Hash)
-		if err != nil {
-			m.addViol("C07", "transaction-not-retrievable", "after truncation #%d ReadTransactionByHash(%s) fails: %v", round, short(v.Transaction.Hash), err)
-		} else if d := trxDiff(&v.Transaction, &tx); d != "" {
-			m.addViol("C07", "transaction-content-changed", "after truncation #%d transaction %s read back differs in %s", round, short(v.Transaction.Hash), d)
+		if rb.terr != nil {
+			m.addViol("C07", "transaction-not-retrievable", "after truncation #%d ReadTransactionByHash(%s) fails: %v", round, short(v.Transaction.Hash), rb.terr)
+		} else if d := trxDiff(&v.Transaction, &rb.tx); d != "" {
+			m.addViol("C07", "transaction-content-changed", "after truncation #%d transaction %s read back differs in %s (compared after all reads)", round, short(v.Transaction.Hash), d)
 		}
 	}
 	return moved
